@@ -87,6 +87,26 @@ func (ex *Exec) mapLen(st *State, mt *types.Map, m Term) Term {
 	base := mapKeyBase(mt)
 	card := ex.heapGetIn(st, base+"#card", ArrSort(SInt, SInt))
 	n := Ite(Eq(m, I(0)), I(0), Sel(card, m))
+	// len(m) counts the keys: a map with a key has positive length (assumed for every heap version read)
+	ks := ex.keySort(mt)
+	dom := ex.heapGetIn(st, base+"#dom", ArrSort(SInt, ArrSort(ks, SBool)))
+	if !strings.Contains(dom.S, "!q") && !strings.Contains(card.S, "!q") && !strings.Contains(m.S, "!q") {
+		key := "card|" + dom.S + "|" + card.S + "|" + m.S
+		if ex.mapWFDone == nil {
+			ex.mapWFDone = map[string]bool{}
+		}
+		if !ex.mapWFDone[key] {
+			ex.mapWFDone[key] = true
+			save := ex.vc.inQuant
+			ex.vc.inQuant = 0
+			ex.vc.fresh++
+			q := fmt.Sprintf("k!q%d", ex.vc.fresh)
+			ex.vc.AssumeRaw(fmt.Sprintf("(forall ((%s %s)) (! (=> (select (select %s %s) %s) (> (select %s %s) 0)) :pattern ((select (select %s %s) %s))))",
+				q, ks, dom.S, m.S, q, card.S, m.S, dom.S, m.S, q), "a map that has a key has positive length")
+			ex.vc.AssumeRaw(fmt.Sprintf("(>= (select %s %s) 0)", card.S, m.S), "map length is non-negative")
+			ex.vc.inQuant = save
+		}
+	}
 	return n
 }
 
